@@ -100,6 +100,18 @@ Example C20_progress_nonvacuous : exists n s,
   rev (out (cs s)) = [ORead 2 [1; 2]%Z ENil; OClose; ORead 4 [] EEOF; OClose].
 Proof. exact ex_close_run. Qed.
 
+(* the assembler is held up (blocked in <-r.done) only while the consumer holds the batch it was
+   given: between two calls, or already at the acknowledging send of Read / Close *)
+Theorem C20_assembler_waits_only_for_reader : forall le hist prog n s,
+  steps (step (fixed le)) n (init (fixed le) hist prog) s -> is_wait (ap s) = true ->
+  match pc (cs s) with
+  | CReadSend _ _ | CCloseAck | CCloseSend => True
+  | CIdle => first (cs s) = false /\ closed (cs s) = false
+  | _ => False
+  end.
+Proof. exact assembler_waits_only_for_reader. Qed.
+Print Assumptions C20_assembler_waits_only_for_reader.
+
 (* ---- rendezvous determinism: every code variant has the diamond property, so all maximal
    runs from a state have the same length and the same final state; the executable canonical
    schedule computes it and any other scheduling function gives the same result.  This is why
